@@ -1118,6 +1118,17 @@ class StridedInterval:
         return None
 
     @property
+    def _last_member(self) -> int:
+        """
+        The last member reached when stepping from the lower bound. It differs from the upper bound when the upper
+        bound is not a multiple of the stride away from the lower bound.
+        """
+        if self.stride == 0:
+            return self.lower_bound
+        span = self._modular_sub(self.upper_bound, self.lower_bound, self.bits)
+        return self._modular_add(self.lower_bound, span // self.stride * self.stride, self.bits)
+
+    @property
     def is_empty(self):
         """
         The same as is_bottom
@@ -1737,7 +1748,7 @@ class StridedInterval:
         if overflow:
             return StridedInterval.top(self.bits)
 
-        lb = self._modular_sub(self.lower_bound, b.upper_bound, new_bits)
+        lb = self._modular_sub(self.lower_bound, b._last_member, new_bits)
         ub = self._modular_sub(self.upper_bound, b.lower_bound, new_bits)
 
         # Is it initialized?
